@@ -127,7 +127,10 @@ def gen_run(exe, rng, tier):
     # … and whole TCP connections (association created, requests outstanding, connection gone: everything it held is released)
     return (WH.run_parallel(exe, rng, 200 if tier == "quick" else 5000, build_refs) +
             WH.run_parallel(exe, rng, 40 if tier == "quick" else 1500, WH.tcp_history) +
-            WH.run_parallel(exe, rng, 40 if tier == "quick" else 1000, WH.srvconn_history))
+            WH.run_parallel(exe, rng, 40 if tier == "quick" else 1000, WH.srvconn_history) +
+            # … and requests the proxy cannot send on (grown past 4096 octets on their way): sendrq's failure exit, which gives the
+            # request up under the lock it already holds
+            WH.run_parallel(exe, rng, 12 if tier == "quick" else 300, WH.grow_history))
 
 
 def gen(rng, tier):
